@@ -3,6 +3,7 @@ package config
 import (
 	"encoding/json"
 	"fmt"
+	"sort"
 	"strconv"
 	"strings"
 	"time"
@@ -51,6 +52,18 @@ func NewStringMap() *StringMap {
 	return &StringMap{
 		Fields: make(map[string]string),
 	}
+}
+
+// SortedKeys returns the keys of fields in ascending order. Smart contracts apply requested
+// settings in this order, so that which of several invalid fields is reported (and which of
+// several fields naming the same setting wins) does not depend on Go's map iteration order.
+func SortedKeys(fields map[string]string) []string {
+	keys := make([]string, 0, len(fields))
+	for k := range fields {
+		keys = append(keys, k)
+	}
+	sort.Strings(keys)
+	return keys
 }
 
 func (im *StringMap) Decode(input []byte) error {
